@@ -6,7 +6,10 @@ use std::hash::{BuildHasher, Hasher};
 use std::sync::Arc;
 
 use fnv::FnvHasher;
+#[cfg(not(prometheus_verif))]
 use parking_lot::RwLock;
+#[cfg(prometheus_verif)]
+use crate::verif_sync::RwLock;
 
 use crate::desc::{Desc, Describer};
 use crate::errors::{Error, Result};
@@ -357,6 +360,14 @@ impl<T: MetricVecBuilder> Collector for MetricVec<T> {
 
     fn collect(&self) -> Vec<MetricFamily> {
         vec![self.v.collect()]
+    }
+}
+
+#[cfg(prometheus_verif)]
+impl<T: MetricVecBuilder> MetricVec<T> {
+    /// Address under which the verification shim reports this vector's lock.
+    pub fn verif_lock_addr(&self) -> usize {
+        &self.v.children as *const _ as usize
     }
 }
 
